@@ -301,6 +301,37 @@ pub fn cases(tier: &str, seed: u64, focus: &str) -> Vec<EncCase> {
         }
     }
 
+    // (3b+) a Base256 run between ASCII-cheap neighbours, then digit pairs that make the obvious plan
+    // (ASCII, Base256 run with explicit length, ASCII digit pairs) land exactly on a capacity, one below and one above
+    if focus != "C10" {
+        let runs: Vec<usize> = if thorough { vec![3, 9, 40, 247, 248, 249, 250, 251, 252, 499, 500, 501, 750] } else { vec![9, 248, 249, 250, 251, 500] };
+        for l in runs {
+            for pre in [&b""[..], b"A"] {
+                for post in [&b""[..], b"a"] {
+                    let base = pre.len() + 1 + if l <= 249 { 1 } else { 2 } + l + post.len();
+                    let caps: Vec<usize> = g.sizes.iter().map(|s| capacity_of(*s)).filter(|c| *c >= base).collect();
+                    let mut caps_sorted = caps.clone();
+                    caps_sorted.sort();
+                    caps_sorted.dedup();
+                    for cap in caps_sorted.iter().take(if thorough { 4 } else { 2 }) {
+                        for delta in [-1i64, 0, 1] {
+                            let pairs = *cap as i64 - base as i64 + delta;
+                            if pairs < 0 {
+                                continue;
+                            }
+                            let mut s = pre.to_vec();
+                            s.extend(class_string(&mut rng, Class::High, l));
+                            s.extend_from_slice(post);
+                            s.extend(class_string(&mut rng, Class::Digits, 2 * pairs as usize));
+                            out.push(EncCase { order: [0, 1, 2, 3], stratum: "b256Mix", input: s.clone(), modes: 63, list: g.default.clone(), macros: true, fnc1: false, eci: -1 });
+                            out.push(EncCase { order: [0, 1, 2, 3], stratum: "b256Mix", input: s, modes: 1 | 32, list: g.sizes.clone(), macros: false, fnc1: false, eci: -1 });
+                        }
+                    }
+                }
+            }
+        }
+    }
+
     // (3b') four or five runs, occasionally with a long Base256-type run (>= 250 bytes) in front
     if focus != "C10" {
         let nmulti = if thorough { 15000 } else { 2500 };
